@@ -76,6 +76,30 @@ theorem normalize_bare_self_counterexample (cmp : Tree → Tree → Ordering) :
       itemLeaves (use [.slf none]) ≠ [] ∧ itemLeaves (use []) = [] :=
   ⟨rfl, by decide, by decide⟩
 
+/-- `normalize` keeps a declaration well-formed (in particular every nested tree keeps a non-empty
+path: the hypothesis of `flatten_leaves`), and a declaration without attributes comes out without
+any empty list. -/
+theorem normalize_wf (cmp : Tree → Tree → Ordering) (it it' : Item)
+    (h : normalizeItem cmp it = .ok it') (hwf : wfPath true it.tree.path = true) :
+    wfPath true it'.tree.path = true ∧ nePath it'.tree.path = true ∧
+      (it.attrs = none → leafyPath it'.tree.path = true) := by
+  unfold normalizeItem at h
+  split at h
+  · simp at h
+  · rename_i p hp
+    simp only [Except.ok.injEq] at h; subst h
+    have hw := normPath_wf cmp _ _ _ _ _ true hp hwf
+    refine ⟨hw, wfPath_nePath true _ hw, ?_⟩
+    intro ha
+    exact normPath_leafy cmp _ _ _ _ _ true (by simp [ha]) hp hwf
+
+/-- `use a::{b::{}, c};` is normalised to `use a::c;` and `use a::{b::{}, c::{}};` to nothing
+(the element that imports nothing is removed and the tree normalised again). -/
+theorem normalize_removes_nested_empty (cmp : Tree → Tree → Ordering) :
+    normalizeItem cmp (use [i 'a', .list [.mk [i 'b', .list []], .mk [i 'c']]]) = .ok (use [i 'a', i 'c']) ∧
+    normalizeItem cmp (use [i 'a', .list [.mk [i 'b', .list []], .mk [i 'c', .list []]]]) = .ok (use []) :=
+  ⟨rfl, rfl⟩
+
 /-! ## `flatten`, `nest_trailing_self` -/
 
 /-- `flatten` keeps the imports, **as a list** (order and multiplicity), when every nested tree has
@@ -91,10 +115,12 @@ example : nePath useNested.tree.path = true := by decide
 theorem flatten_vis (g : Granularity) (it : Item) : ∀ p ∈ flattenItem g it, p.vis = it.vis :=
   flattenItem_vis g it
 
-/-- The hypothesis is needed: a nested tree with an empty path (what `normalize` leaves of the
-nested `b::{}` in `use a::{b::{}, c};`) is flattened to an import of the prefix itself:
-`use a::{<empty>, c}` becomes `use a; use a::c;` — an import nobody wrote
-(reproduced on the binary: `use a::{b::{}, c};` under `imports_granularity=Item` gives `use a;`). -/
+/-- The hypothesis is needed: a nested tree with an empty path is flattened to an import of the
+prefix itself: `use a::{<empty>, c}` becomes `use a; use a::c;` — an import nobody wrote.  Before the
+repair of `UseTree::normalize` in /repo this is what `normalize` left of the nested `b::{}` in
+`use a::{b::{}, c};` (reproduced on the binary then: `imports_granularity=Item` gave `use a;`);
+`normalize` now removes such elements (`normalize_removes_nested_empty`, `normalize_wf`), so no
+parsed declaration reaches `flatten` in this shape any more. -/
 theorem flatten_empty_nested_counterexample :
     let it := use [i 'a', .list [.mk [], .mk [i 'c']]]
     (⟨[], none, ⟨[.name (n 'a') none], none⟩⟩ : ItemLeaf) ∈ runLeaves (flattenItem .item it) ∧
@@ -180,28 +206,30 @@ theorem alias_stem_counterexample (cmp : Tree → Tree → Ordering) :
       runLeaves [use [ia 'a' 'x', .list [.mk [.slf (some (n 'x'))], .mk [i 'b']]]] :=
   ⟨rfl, by decide, by decide⟩
 
-/-- `Item`: the keyed leaf set is unchanged provided no import occurs twice with different
-visibility or attributes (and nested paths are non-empty). -/
-theorem granularity_item_leaves_partial (cmp : Tree → Tree → Ordering) (its res : List Item)
-    (h : withGranularity cmp .item its = .ok res) (hne : neRun its = true)
-    (hd : dupSameKey (runLeaves its) = true) : SetEq (runLeaves res) (runLeaves its) := by
+/-- `Item`: the keyed leaf set is unchanged (nested paths non-empty, as the parser builds them):
+flattening, nesting a trailing `self` and dropping repeated imports lose nothing.  (Before the
+repair of `flatten_use_trees` in /repo this needed the hypothesis that no import occurs twice with
+different visibility or attributes: `unique()` compared paths only.) -/
+theorem granularity_item_leaves (cmp : Tree → Tree → Ordering) (its res : List Item)
+    (h : withGranularity cmp .item its = .ok res) (hne : neRun its = true) :
+    SetEq (runLeaves res) (runLeaves its) := by
   simp only [withGranularity, Except.ok.injEq] at h
   subst h
-  exact granularity_item_leaves its hne hd
+  exact RF.Lemmas.Imports.granularity_item_leaves its hne
 
-example : neRun [useNested, useAB, useA] = true ∧
-    dupSameKey (runLeaves [useNested, useAB, useA]) = true := by decide
+example : neRun [useNested, useAB, useA] = true := by decide
 
-/-- The hypothesis is needed: `unique()` uses `Eq`/`Hash for UseTree`, which look at the path only,
-so `#[cfg(x)] use f::B; #[cfg(y)] use f::B;` loses the second declaration with its attribute
-(and `pub use p::q; use p::q;` loses the private one).  Reproduced on the binary. -/
-theorem granularity_item_counterexample (cmp : Tree → Tree → Ordering) :
+/-- The declarations the old code lost are kept: `#[x] use f::B; #[y] use f::B;` and
+`pub use f::B; use f::B;` come out unchanged, while a plain repetition is dropped. -/
+theorem granularity_item_keeps_keyed_twins (cmp : Tree → Tree → Ordering) :
     let a : Item := ⟨.mk [i 'f', i 'B'], some [], some (n 'x'), false⟩
     let b : Item := ⟨.mk [i 'f', i 'B'], some [], some (n 'y'), false⟩
-    withGranularity cmp .item [a, b] = .ok [a] ∧
-    (⟨[], some (n 'y'), ⟨[.name (n 'f') none, .name (n 'B') none], none⟩⟩ : ItemLeaf) ∈ runLeaves [a, b] ∧
-    (⟨[], some (n 'y'), ⟨[.name (n 'f') none, .name (n 'B') none], none⟩⟩ : ItemLeaf) ∉ runLeaves [a] :=
-  ⟨rfl, by decide, by decide⟩
+    let p : Item := ⟨.mk [i 'f', i 'B'], some ['p', 'u', 'b'], none, false⟩
+    let q : Item := ⟨.mk [i 'f', i 'B'], some [], none, false⟩
+    withGranularity cmp .item [a, b] = .ok [a, b] ∧
+    withGranularity cmp .item [p, q] = .ok [p, q] ∧
+    withGranularity cmp .item [q, q] = .ok [q] :=
+  ⟨rfl, rfl, rfl⟩
 
 /-- `Preserve` returns the run unchanged. -/
 theorem granularity_preserve (cmp : Tree → Tree → Ordering) (its : List Item) :
@@ -263,5 +291,67 @@ theorem run_leaves_partial (cmp : Tree → Tree → Ordering) (g : Granularity) 
   run_leaves cmp g gt reorder items normalized groups hn h hwf hs
 
 example : normalizable [useNested, useAB] = true ∧ safeFor .crate [useNested, useAB] = true := by decide
+
+/-- The groups that are rendered are, put end to end, a permutation of what the granularity step
+returned: regrouping, sorting and dropping empty groups neither lose nor repeat a declaration. -/
+theorem run_groups_permutation (cmp : Tree → Tree → Ordering) (g : Granularity) (gt : GroupTactic)
+    (reorder : Bool) (items normalized : List Item) (groups : List (List Item))
+    (hn : mapE (normalizeItem cmp) items = .ok normalized)
+    (h : rewriteUseRun cmp g gt reorder items = .ok groups) :
+    ∃ merged, withGranularity cmp g normalized = .ok merged ∧ groups.flatten.Perm merged :=
+  run_perm cmp g gt reorder items normalized groups hn h
+
+/-- No merging across attributes or attached comments, for the whole arm and without any
+hypothesis on the declarations: under `Crate`, `Module` and `One` every declaration that has
+attributes or a comment (anywhere in it) is rendered exactly as it was normalised — same path, same
+visibility, same attributes — and no other declaration acquires attributes or a comment. -/
+theorem run_no_merge_across (cmp : Tree → Tree → Ordering) (g : Granularity) (sp : SharedPrefix)
+    (hg : spOf g = some sp) (gt : GroupTactic) (reorder : Bool)
+    (items normalized : List Item) (groups : List (List Item))
+    (hn : mapE (normalizeItem cmp) items = .ok normalized)
+    (h : rewriteUseRun cmp g gt reorder items = .ok groups) :
+    (groups.flatten.filter isProt).Perm (normalized.filter isProt) :=
+  run_protected cmp g sp hg gt reorder items normalized groups hn h
+
+/-- non-vacuity: `#[x] use a::b; use a::c; use a::d; // c` under `Crate`: the two plain
+declarations… are one, the attributed one and the commented one stand as they were. -/
+example (cmp : Tree → Tree → Ordering) :
+    let a : Item := ⟨.mk [i 'a', i 'b'], some [], some (n 'x'), false⟩
+    let c : Item := ⟨.mk [i 'a', i 'c'], some [], none, true⟩
+    withGranularity cmp .crate [a, useAB, c, use [i 'a', i 'd']] =
+      .ok [a, use [i 'a', .list (RF.Sort.stableSort cmp [.mk [i 'b'], .mk [i 'd']])], c] := rfl
+
+/-- The arm never panics on declarations as the parser builds them (well-formed, non-empty paths),
+whatever the granularity, grouping and reordering. -/
+theorem run_total (cmp : Tree → Tree → Ordering) (g : Granularity) (gt : GroupTactic)
+    (reorder : Bool) (items : List Item)
+    (hwf : ∀ it ∈ items, wfPath true it.tree.path = true ∧ it.tree.path ≠ []) :
+    ∃ groups, rewriteUseRun cmp g gt reorder items = .ok groups :=
+  RF.Lemmas.Imports.run_total cmp g gt reorder items hwf
+
+example : ∀ it ∈ [useNested, useAB, useAasX], wfPath true it.tree.path = true ∧ it.tree.path ≠ [] := by
+  decide
+
+/-- The whole arm under `Preserve`, `Item` and `Crate` keeps the keyed leaf set of every run of
+declarations as the parser builds them (`normalizable`: well-formed paths, no bare `use self;`):
+no hypothesis on aliases, duplicates, visibilities, attributes or comments.  (For `Module` and `One`
+see `run_leaves_partial`: the alias conditions are needed, the counter-examples are above.) -/
+theorem run_leaves_preserve_item_crate (cmp : Tree → Tree → Ordering) (g : Granularity)
+    (hg : g = .preserve ∨ g = .item ∨ g = .crate) (gt : GroupTactic) (reorder : Bool)
+    (items : List Item) (groups : List (List Item))
+    (h : rewriteUseRun cmp g gt reorder items = .ok groups) (hwf : normalizable items = true) :
+    SetEq (runLeaves groups.flatten) (runLeaves items) := by
+  cases hn : mapE (normalizeItem cmp) items with
+  | error e => simp [rewriteUseRun, hn] at h
+  | ok normalized =>
+    obtain ⟨h1, h2, h3⟩ := normalized_safe cmp items normalized hn hwf
+    refine run_leaves cmp g gt reorder items normalized groups hn h hwf ?_
+    rcases hg with rfl | rfl | rfl
+    · exact h1
+    · exact h2
+    · exact h3
+
+example : normalizable [useNested, useA, useAasX, use [i 'a', .list [.mk [i 'b', .list []], .mk [i 'c']]]] = true := by
+  decide
 
 end RF.Props.C10
